@@ -386,6 +386,12 @@ func (w *World) execOpExtra(ctx context.Context, toks []string) error {
 	if ok, err := w.execMultiDBOp(ctx, toks); ok || err != nil {
 		return err
 	}
+	if ok, err := w.execAddrOp(ctx, toks); ok || err != nil {
+		return err
+	}
+	if ok, err := w.execSnapOp(ctx, toks); ok || err != nil {
+		return err
+	}
 	if toks[0] == "unchanged" {
 		w.observe(atoi(toks[1]))
 		return nil
